@@ -82,6 +82,7 @@ fn run(name: &str, args: &Value) -> Value {
         "c17_roundtrip" => c17::roundtrip(args),
         "c15_response" => c15::response(args),
         "c15_serialize" => c15::serialize(args),
+        "c15_parse" => c15::parse(args),
         "c16_sequence" => c16::sequence(args),
         "c16_whole" => c16::whole(args),
         "c14_ports" => c14::ports(args),
